@@ -122,7 +122,7 @@ def pipeBurstLine (ts : List String) : String :=
       let (fin, outs) := bursts.foldl (fun (acc : Sys × List String) ops =>
           let simple := if acc.1.lib.recursive then allFileB acc.1 ops else allValidNoRootB acc.1 ops
           let (s1, evs) := acc.1.burst ops
-          let grow := acc.1.lib.recursive && allGrowB acc.1 ops
+          let grow := acc.1.lib.recursive && allFillB acc.1 ops
           (s1, acc.2 ++ [",".intercalate (canonEvents evs) ++ s!" grow={b01 grow} simple={b01 simple}"])) (s0, [])
       let tree := sortStr ((fin.fs.ents.filter (fun (e : Ent) => isUnder ["W"] e.path)).map
         (fun (e : Ent) => showP e.path ++ (if e.isDir then "/" else "")))
